@@ -1,4 +1,5 @@
 import BM.Props.C10b
+import BM.Props.C10c
 import BM.Props.SrcPin.C10
 /- Top module of property C10: its theorems (BM.Props.C10b) and the statement of which units of /repo's
    source its model and proofs were written against (BM/Props/SrcPin/C10.lean, re-checked against the
